@@ -5,6 +5,13 @@ _RULE_TYPES = ("random type trees built through pydsdl's public constructors (de
                "unions of 2..6 and 255/256/257 variants; sealed and delimited composites with extent equal to / above the minimum; "
                "with and without the top-level delimiter header)")
 
+_RULE_LOOKALIKE = ("; about 9% of the cases are HISTORIES within one process over 2-3 DIFFERENT types that share one full name and version "
+                   "at every position of the tree and whose bit length sets pydsdl's approximate `==`/hash cannot tell apart (declaration order of "
+                   "fields / variants permuted with or without the names, same-width leaves of another kind such as intN/uintN/floatN/bool[N]/void, "
+                   "cast mode flipped, fields renamed, another body or another revision of a nested delimited type with the same extent), used one "
+                   "after another and in alternation (3-8 steps; objects built up front or at first use): every step is judged as if it stood alone "
+                   "and must equal the outcome on a freshly built, uniquely named structural twin")
+
 _MODEL = "the Lean model Model/Wire.lean mirrors _serdes.py and the layout parameters of _serializable/*.py (validated by the wire correspondence on every run)"
 
 _TRUST = ("Trusted: Lean kernel, axioms propext/Classical.choice/Quot.sound; the hand-written model is validated against the code by "
@@ -17,8 +24,9 @@ REG = {
         "suites": [("wire", (8000, 150000))],
         "rule": _RULE_TYPES + " x values (boundary and out-of-range integers up to 2**70, bool-as-int, NaN/inf/subnormal/tie floats and huge "
                 "ints for float fields, empty and full arrays, multi-byte UTF-8 as str and bytes, omitted fields, shuffled dict order), "
-                "each as explicit dict, as relaxed positional / bare-value form, or with one shape violation; 2-5 values per type; "
-                "non-trivial = every case; distinct = distinct (type, value, flags)",
+                "each as explicit dict, as relaxed positional / bare-value form, or with one shape violation; 2-5 values per type"
+                + _RULE_LOOKALIKE + " (steps: serialize plain / relaxed / with a shape violation, deserialize a reference encoding whose value is known, "
+                "deserialize arbitrary bytes); non-trivial = every case; distinct = distinct (type, value, flags)",
         "technique": "Lean 4 theorems over an executable model of the codec (mutual structural induction over all types and values) + "
                      "differential correspondence with pydsdl.serialize/deserialize + independent reference encoder and exact-rational float oracle",
         "level_text": "For the modelled codec it is proved in Lean 4, for all well-formed types, all valid values, every aligned offset and any trailing "
@@ -45,7 +53,12 @@ REG = {
         "suites": [("wire", (12000, 150000))],
         "rule": _RULE_TYPES + " x byte strings: random bytes (uniform, mostly-zero, constant), a valid representation (reference encoder) with junk "
                 "suffixes, prefixes of valid representations (all prefixes for short ones), 1-2 bit flips, one length prefix / union tag / delimiter "
-                "header overwritten with an illegal value (at any nesting depth); every byte string also with 2-4 zero / junk suffixes; "
+                "header overwritten with an illegal value (at any nesting depth); a delimited object (any depth, or the top-level one with header) "
+                "whose header is lowered so that the payload ends early - preferably right behind the length prefix / inside an array - with the "
+                "enclosing headers adjusted and everything behind it (sibling fields, further array elements; junk at the top level) kept, compared "
+                "with the same payload filled up with explicit zeros; a quarter of the types are made for that (delimited structures / unions with "
+                "byte, utf8, uint8 and other arrays, at the top level and nested as field, array element, union variant, nested delimited); "
+                "every byte string also with 2-4 zero / junk suffixes" + _RULE_LOOKALIKE.replace("about 9%", "about 1%") + " (steps: deserialize); "
                 "non-trivial = non-empty byte string; distinct = distinct (type, bytes, flags)",
         "technique": "Lean 4 theorems over the executable decoder model + differential correspondence with pydsdl.deserialize + metamorphic oracle on the real library",
         "level_text": "For the modelled decoder it is proved in Lean 4, for all types and all bit strings: totality with only the four decode error classes; "
@@ -72,6 +85,9 @@ C14_WIRE = {
             "fixed / variable array element, union variant, or inside a further delimited structure; random values of the writer's type; both "
             "directions (fields appended / removed); 12% of the pairs are delimited UNIONS gaining / losing trailing variants (common variants must "
             "read alike, a variant unknown to the reader must be rejected, never decoded as something else); "
+            "12% of the cases are histories of 2-6 write/read steps in one process with the two containers built under ONE full name and version "
+            "(old and new checkout side by side; equal bit length sets, so pydsdl's `==`/hash cannot tell them apart) in every order: "
+            "old -> new, new -> old, each its own data, each step also compared with freshly built uniquely named twins; "
             "distinct = distinct (writer type, reader type, value)",
     "partial": [
         "wire half: C14.wire is proved for one nesting path (Wire.Ctx: field / variant / fixed and variable array element / sealed or delimited "
